@@ -53,8 +53,8 @@ FragKinds ==
      \* typing
      odd_annotations |-> 1, string_annotation_errors |-> 1, typing_calls |-> 1, noncallable_deco |-> 1, builtin_arity |-> 1,
      helper_arity |-> 1, callback_arg |-> 1, return_classes |-> 1, return_metaclass |-> 0,
-     \* confined to kinds of their own: the tree deviates on them (Dev_VersionInfoCompare, Dev_AliasKeyUnhashable,
-     \* Dev_ParamSpecSubstitution below)
+     \* version_info_compare: regression generator of a repaired crash; paramspec_alias: confined to a kind of its own because
+     \* the tree deviates on it (Dev_ParamSpecSubstitution below)
      version_info_compare |-> 1, paramspec_alias |-> 1,
      \* the inputs of four repaired crashes (kept as regression generators)
      match_value_dotted |-> 0, recursive_str_alias |-> 0, pure_call_raises |-> 1]
@@ -316,20 +316,12 @@ TypeOK == life \in {"Start", "Diags", "Done"} /\ ndiags \in Nat
 (***************************************************************************)
 
 (***************************************************************************)
-(* Open deviations on the input side.  exck = the exception type of the    *)
+(* Open deviation on the input side.  exck = the exception type of the    *)
 (* "Internal error:" line, site = file:function of the innermost pyanalyze *)
 (* frame of the reported traceback, f = the fragment the report falls in.  *)
 (***************************************************************************)
-\* name_check_visitor.py:3575 _visit_single_compare evaluates `sys.version_info <op> <literal>` with the real operator and
-\* lets its TypeError escape (`sys.version_info > "3"`, `sys.version_info < 3`, `sys.version_info >= (3, "x")`)
-Dev_VersionInfoCompare(f, d) ==
-    /\ d.code = "internal_error" /\ f.kind = "version_info_compare"
-    /\ d.exck = "TypeError" /\ d.site = "name_check_visitor.py:_visit_single_compare"
-\* annotations.py:1308-1312 keys the type-alias cache by the subscripted alias object; `Alias[[int]]` (ParamSpec argument
-\* list of a PEP 695 alias) contains a list and is unhashable
-Dev_AliasKeyUnhashable(f, d) ==
-    /\ d.code = "internal_error" /\ f.kind = "paramspec_alias"
-    /\ d.exc = "Internal error: TypeError(\"unhashable type: 'list'\")" /\ d.site = "annotations.py:get_type_alias"
+\* (repaired and therefore required now: version-info-comparison-raises by 55a5b7d, type-alias-cache-key-unhashable by
+\* 918a2c8; the fragment kinds version_info_compare and paramspec_alias keep generating their inputs)
 \* signature.py:1784-1786 Signature.substitute_typevars asserts that a ParamSpec is replaced by a callable signature;
 \* `Alias[int]` for `type Alias[**P] = Callable[P, int]` substitutes a plain type
 Dev_ParamSpecSubstitution(f, d) ==
